@@ -158,7 +158,7 @@ func runC03(cx *Ctx, r *Report) {
 				fmt.Fprintf(os.Stderr, "   fact %s\n", trunc(ft.String(), 160))
 			}
 		}
-		r.check(g1 && g2a && g2b && g3a && g3b && (coExecuted(mint[0].ev, give[0].ev) || sharedPay), "claim-routes-exclusive", "ClaimHTLC", mint[0].ev.Pos(cx), "routes are guarded by ¬Transfer | Transfer∧Direction==Incoming (mint then pay) | Transfer∧Direction≠Incoming (burn): pairwise contradictory", "the three claim routes are not guarded by pairwise contradictory conditions on Transfer/Direction")
+		r.check(g1 && g2a && g2b && g3a && g3b && (coExecuted(mint[0].ev, give[0].ev) || sharedPay || coExecutedByFacts(mint[0].w, mint[0].ev, give[0].ev)), "claim-routes-exclusive", "ClaimHTLC", mint[0].ev.Pos(cx), "routes are guarded by ¬Transfer | Transfer∧Direction==Incoming (mint then pay) | Transfer∧Direction≠Incoming (burn): pairwise contradictory", "the three claim routes are not guarded by pairwise contradictory conditions on Transfer/Direction")
 		// at least one route on every successful path of the function that dispatches
 		// (the routes may sit in helpers, switch arms or steps of a first-error combinator:
 		// judged in the lowest frame that holds all of them)
@@ -177,7 +177,8 @@ func runC03(cx *Ctx, r *Report) {
 			if !okOne && len(sites) > 0 {
 				// the dispatcher switches on a computed kind: judged once per value the kind can
 				// have on this chain (a kind that no path produces opens no path)
-				okOne = plain[0].w.mustPassPerKind(disp, func(i ssa.Instruction) bool { return sites[i] })
+				okOne = plain[0].w.mustPassPerKind(disp, func(i ssa.Instruction) bool { return sites[i] }) ||
+					plain[0].w.mustPassPerAlternatives(disp, func(i ssa.Instruction) bool { return sites[i] })
 			}
 			okInner := true
 			r.check(okOne && okInner, "claim-routes-total", "ClaimHTLC", plain[0].ev.Pos(cx), "every successful claim passes through exactly one payout route", "a successful claim path can avoid every payout route")
